@@ -23,5 +23,6 @@ def run(e, R, tier):
         T.r_rt_sweep,
         T.r_rt_table,
         T.r_rt_proto,
+        T.r_relaunch,
         Pr.r_vendor,
     ])
